@@ -3,7 +3,9 @@
 //! `ckbmc check <ID> --tier quick|thorough [--replay file]`   orchestrator (spawns shard workers)
 //! `ckbmc worker <ID> --tier T --shard i --of n --out file`   one shard, writes a partial report
 mod core;
+mod node;
 mod props;
+mod world;
 
 use crate::core::*;
 use std::path::PathBuf;
